@@ -203,8 +203,26 @@ def run(tier, mode):
         bump('unknown')
         if not (isinstance(got, H.Exn) and got.name == 'ValueError'):
             fail('unknown_name', {'text': bad}, got if isinstance(got, H.Exn) else cfg_vals(got), 'ValueError')
+    # ... including names that happen to be other members of the Config class
+    for nm_ in sorted(set(dir(Config)) - set(ATTRS)):
+        for bad in (nm_, nm_ + '.1', nm_ + '=main'):
+            got = H.call(Config, bad)
+            n_or += 1
+            bump('unknown')
+            if not (isinstance(got, H.Exn) and got.name == 'ValueError'):
+                fail('unknown_name', {'text': bad}, got if isinstance(got, H.Exn) else cfg_vals(got), 'ValueError')
     # ---------------- precedence / channels
     with Recorder() as rec:
+        # documented depth interplay of Tract.parse: a qq_depth keyword wins; a qq_depth_min / qq_depth_max keyword switches the configured exact
+        # qq_depth off (the other bound then comes from the attribute); with no depth keyword the configured qq_depth applies
+        for ctx, kws, want in [('qq_depth.1', {'qq_depth_max': 3}, (2, 3)), ('qq_depth.1', {'qq_depth_min': 3}, (3, None)), ('qq_depth.1', {'qq_depth': 3}, (3, 3)),
+                               ('qq_depth.1', {}, (1, 1)), ('qq_depth_min.1,qq_depth_max.3', {'qq_depth': 2}, (2, 2)), ('qq_depth.1,qq_depth_min.3', {'qq_depth_max': 4}, (3, 4)),
+                               ('qq_depth.1', {'qq_depth_min': 1, 'qq_depth_max': 3}, (1, 3)), ('qq_depth.3', {'qq_depth_max': 1}, (2, 1))]:
+            o = tr_observe(rec, ctx, None, [], kws)
+            n_or += 1
+            bump('depth_interplay')
+            if isinstance(o, H.Exn) or (o[2], o[3]) != want:
+                fail('depth_interplay', {'class': 'Tract', 'config': ctx, 'keywords': kws}, o if isinstance(o, H.Exn) else (o[2], o[3]), want)
         combos = []
         for a in PD_KW:
             for v in domain(a):
